@@ -660,10 +660,16 @@ def dropLeadingNeg : List Int → Int → Int → (List Int × Int × Int)
   | c :: r, off, holes => if c < 0 then dropLeadingNeg r (off + 1) (holes - 1) else (c :: r, off, holes)
   | [], off, holes => ([], off, holes)
 
+/-- drop trailing holes: the trimmed list and the number of holes dropped -/
+def trimBackNeg : List Int → (List Int × Int)
+  | [] => ([], 0)
+  | c :: r =>
+    match trimBackNeg r with
+    | ([], k) => if c < 0 then ([], k + 1) else ([c], k)
+    | (r', k) => (c :: r', k)
+
 def dropTrailingNeg (s : List Int) (holes : Int) : (List Int × Int) :=
-  let r := s.reverse
-  let k := (r.takeWhile (fun c => decide (c < 0))).length
-  (s.take (s.length - k), holes - k)
+  ((trimBackNeg s).1, holes - (trimBackNeg s).2)
 
 /-- `String.trimHoles` (repair #4) -/
 def strTrimHoles (s : List Int) (off holes : Int) : (List Int × Int × Int) :=
@@ -671,18 +677,24 @@ def strTrimHoles (s : List Int) (off holes : Int) : (List Int × Int × Int) :=
   let (s2, h2) := dropTrailingNeg s1 h1
   (s2, off1, h2)
 
-/-- `String.Without(StringCharTuple{at, ch})`; `trim` selects the repaired function -/
-def strWithoutG (trim : Bool) (s : List Int) (off holes : Int) (ix ch : Int) : Rep :=
+/-- the three removal cases of `String.Without(StringCharTuple{at, ch})`, before trimming -/
+def strStage1 (s : List Int) (off holes : Int) (ix ch : Int) : (List Int × Int × Int) :=
   let pos := ix - off
   let i : Int := if 0 ≤ pos && pos ≤ s.length then pos else -1
   let n : Int := s.length
-  let (s', off', holes') : (List Int × Int × Int) :=
-    if i == 0 && s.head? == some ch then (s.tail, off + 1, holes)
-    else if i == n - 1 && s.getLast? == some ch then (s.dropLast, off, holes)
-    else if 0 < i && i < n - 1 && s[i.toNat]? == some ch then (s.set i.toNat (-1), off, holes + 1)
-    else (s, off, holes)
-  let (s'', off'', holes'') := if trim then strTrimHoles s' off' holes' else (s', off', holes')
-  if (s''.length : Int) - holes'' == 0 then .empty else .str s'' off'' holes''
+  if i == 0 && s.head? == some ch then (s.tail, off + 1, holes)
+  else if i == n - 1 && s.getLast? == some ch then (s.dropLast, off, holes)
+  else if 0 < i && i < n - 1 && s[i.toNat]? == some ch then (s.set i.toNat (-1), off, holes + 1)
+  else (s, off, holes)
+
+/-- `s = s.trimHoles()` (repaired only) and the final `Count() == 0` test -/
+def strFinishG (trim : Bool) (t : List Int × Int × Int) : Rep :=
+  let u := if trim then strTrimHoles t.1 t.2.1 t.2.2 else t
+  if (u.1.length : Int) - u.2.2 == 0 then .empty else .str u.1 u.2.1 u.2.2
+
+/-- `String.Without`; `trim` selects the repaired function -/
+def strWithoutG (trim : Bool) (s : List Int) (off holes : Int) (ix ch : Int) : Rep :=
+  strFinishG trim (strStage1 s off holes ix ch)
 
 def strWithout := strWithoutG true
 def strWithoutOld := strWithoutG false
@@ -696,7 +708,7 @@ def asString (ts : List (Int × Int)) : Rep :=
     let maxAt := ts.foldl (fun m t => if m < t.1 then t.1 else m) a0
     let blank : List Int := List.replicate (maxAt - minAt + 1).toNat (-1)
     let s := ts.foldl (fun acc t => acc.set (t.1 - minAt).toNat t.2) blank
-    .str s minAt ((s.length : Int) - ts.length)
+    .str s minAt (countNeg s)      -- counts the holes that are left (c05's repair; before: len - n)
 
 /-! ### arrays -/
 
@@ -704,9 +716,12 @@ def dropLeadingNone {α} : List (Option α) → Int → (List (Option α) × Int
   | none :: r, off => dropLeadingNone r (off + 1)
   | l, off => (l, off)
 
-def dropTrailingNone {α} (l : List (Option α)) : List (Option α) :=
-  let k := (l.reverse.takeWhile Option.isNone).length
-  l.take (l.length - k)
+def dropTrailingNone {α} : List (Option α) → List (Option α)
+  | [] => []
+  | x :: r =>
+    match dropTrailingNone r with
+    | [] => (match x with | none => [] | some _ => [x])
+    | r' => x :: r'
 
 /-- `NewOffsetArray(offset, values...)`: trims holes from both ends, counts -/
 def newOffsetArray (off : Int) (vs : List (Option Rep)) : Rep :=
